@@ -213,6 +213,10 @@ type World struct {
 
 	Park *ParkApp // scheduler seam installed on Chain.Mempool
 
+	// ApplyHook, when set, books a committed transaction from its receipt and
+	// returns true; otherwise the world's own rules apply.
+	ApplyHook func(tx types.Tx, r *types.Receipt) bool
+
 	// OnCommitted is called after a block has been committed on both replicas
 	// and applied to the ledger.
 	OnCommitted func(b *types.Block)
@@ -513,8 +517,17 @@ func (w *World) commitOn(ch *simnode.Chain, b *types.Block, parts *types.PartSet
 
 func (w *World) noteCommitted(b *types.Block) {
 	w.Blocks = append(w.Blocks, b)
-	for _, tx := range b.Data.Txs {
+	var rs types.Receipts
+	if w.ApplyHook != nil {
+		if p := w.Chain.BlockStore.GetReceipts(b.Height); p != nil {
+			rs = *p
+		}
+	}
+	for i, tx := range b.Data.Txs {
 		w.Committed[tx.Hash()] = b.Height
+		if w.ApplyHook != nil && i < len(rs) && rs[i].TxHash == tx.Hash() && w.ApplyHook(tx, rs[i]) {
+			continue
+		}
 		w.Led.ApplyTx(tx)
 	}
 	if w.OnCommitted != nil {
